@@ -368,7 +368,12 @@ class Recorder:
                 try:
                     e = sj.evaluate(t, subs)
                 except ValueError:
-                    continue  # term with UF etc.: cannot evaluate
+                    # term with exp/log applications: evaluate numerically instead
+                    try:
+                        e = sj.eval_float(t, a)
+                        rel = max(rel, 1e-7)
+                    except (ValueError, KeyError, OverflowError, ZeroDivisionError):
+                        continue
                 self.tv_points += 1
                 if isinstance(e, bool):
                     good = bool(o) == e
